@@ -33,7 +33,7 @@ from drivers.common import pmap
 LEVEL = "model_checking"
 
 SCALE = 10 ** 6            # predictions of real estimators are recorded as round(SCALE * score)
-EPS_REAL = 2000            # = 2e-3 in score units: tolerance between two fits of a real estimator on the same pairs
+EPS_REAL = 100             # = 1e-4 in score units (observed: 1e-6): tolerance between two fits of a real estimator on the same pairs
 PROBA_DEN = float(2 ** 22)
 THRS = [(1, 1), (1, 2), (1, 4), (3701, 10000)]
 _REC = {}
@@ -313,7 +313,7 @@ def _nums(s):
 def tlc_runs(cfg, **kw):
     """The CASE tuples printed by TLC: <<"CASE", n, tgt, a, thr, shuffle, perm, it, outcome, pred>>."""
     r = run_tlc("ModelFit", cfg, parse_prints=False, timeout=3000, **kw)
-    if not r.ok and not kw.get("simulate"):
+    if not r.ok:
         raise MachineryError("generation run %s failed: %s %s\n%s" % (cfg, r.violated, r.error, r.output[-2000:]))
     out = []
     for m in _RE_CASE.finditer(r.output):
@@ -493,15 +493,15 @@ def model_phase(ctx):
 def build_cases(ctx, rng):
     cases = []
     gen_states = 0
-    plan = [("ModelFit_gen3.cfg", {}, None)]
+    plan = [("ModelFit_gen3.cfg", {}, None)]            # n <= 3: every run
     if ctx.quick:
-        plan.append(("ModelFit_gen4.cfg", {}, 2600))
+        plan.append(("ModelFit_gen4s.cfg", {}, 2400))     # n = 4: TLC's fixed 1/29 hash sample of the inputs
     else:
-        plan.append(("ModelFit_gen4.cfg", {}, 60000))
-        plan.append(("ModelFit_gen5.cfg", {"simulate": "num=60000", "depth": 20, "seed": ctx.seed + 5, "workers": 1}, 12000))
+        plan.append(("ModelFit_gen4.cfg", {}, 30000))     # n = 4: every run explored, a seeded sample driven
+        plan.append(("ModelFit_gen5s.cfg", {}, 8000))     # n = 5 (strict direction feature): 1/149 hash sample
     idx = ctx.seed
     for cfg, kw, cap in plan:
-        lines, r = tlc_runs(cfg, **kw)
+        lines, r = tlc_runs(cfg, workers=8, **kw)
         groups = group_runs(lines)
         keys = sorted(groups)
         if cfg != "ModelFit_gen3.cfg":
@@ -515,14 +515,13 @@ def build_cases(ctx, rng):
                                       "note": "behaviour generation: %d CASE lines = %d (dataset, thr, perm, max_iter) "
                                               "groups, %d driven%s" % (len(lines), total, len(keys),
                                                                         "" if len(keys) == total else " (seeded sample)")})
-        if not kw.get("simulate"):
-            gen_states += r.distinct
+        gen_states += r.distinct
         for k in keys:
             cases.append(case_from_group(k, groups[k], idx))
             idx += 1
     if len(cases) < 1000:
         raise MachineryError("generation produced only %d cases" % len(cases))
-    nint, nreal = (36, 18) if ctx.quick else (420, 180)
+    nint, nreal = (30, 15) if ctx.quick else (300, 150)
     for j in range(nint):
         cases.append(random_case(rng, idx))
         idx += 1
@@ -634,7 +633,8 @@ def run(ctx):
                "permutation chosen by TLC")
     return ctx.finish(
         rule="cases = every (dataset n<=3, train_fdr, rng permutation, max_iter<=3) run explored by TLC from ModelFit.tla "
-             "+ a seeded sample of the n=4 runs (thorough: + simulated n=5 runs), each driven with shuffle on, shuffle off "
+             "(exhaustive) + a hash / seeded sample of the n=4 runs (thorough: of all n=4 runs and of the n=5 runs with a "
+             "strict direction feature), each driven with shuffle on, shuffle off "
              "and the rows permuted, + seeded random datasets of 50-300 rows (1..10 iterations, 4 thresholds, "
              "decision_function / predict_proba-only integer estimators, LogisticRegression / LinearSVC / "
              "LogisticRegression via predict_proba), each in 4 variants; distinct = distinct (dataset, train_fdr, "
